@@ -667,6 +667,50 @@ def _out_literals(node):
     return out
 
 
+def other_inputs(ck, fa, values, subject):
+    """What the values `values` ([(expression, CFG node)] inside fa) are computed from besides the parameter `subject`
+    and constants: (a) another parameter of the function that some call site in the repository binds to something
+    that is not a constant (a parameter nobody passes, or that is only ever given a literal, is a constant of the
+    program: `encoding="utf-8"`); (b) state that outlives the call (module / class level variables that are rebound
+    or mutable).  Returns [(what, description)]; decided on the dependency closure of the values and on the call
+    sites the call graph resolves to the function."""
+    from .c16 import outliving_state_reads, _immutable_constant
+    out = []
+    dp = set()
+    for (e, at) in values:
+        dp |= fa.deps(e, at)
+        for nm in outliving_state_reads(fa, e, at):
+            out.append((nm, "state that outlives the call (%s)" % nm))
+    a = fa.fi.node.args
+    positional = [x.arg for x in a.posonlyargs + a.args]
+    if fa.fi.cls is not None and not fa.fi.is_static and positional:
+        positional = positional[1:]
+    others = sorted(x[len("param:"):] for x in dp if x.startswith("param:") and x[len("param:"):] not in (subject, "self", "cls"))
+    if not others:
+        return out
+    sites = ck.cg.call_sites_of(lambda call, cands: any(c.node is fa.fi.node or c.qual == fa.fi.qual for c in cands))
+    n_pos = len(a.posonlyargs + a.args)
+    defaults = dict(zip([x.arg for x in (a.posonlyargs + a.args)[n_pos - len(a.defaults):]], a.defaults))
+    defaults.update({x.arg: d for x, d in zip(a.kwonlyargs, a.kw_defaults) if d is not None})
+    for p in others:
+        if p in ((a.vararg.arg if a.vararg else None), (a.kwarg.arg if a.kwarg else None)):
+            out.append((p, "whatever else a caller passes (`%s`)" % p))
+            continue
+        if p in defaults and not _immutable_constant(defaults[p]):
+            out.append((p, "the default of its parameter `%s` (`%s`), an object shared by all calls" % (p, A.short(defaults[p], 40))))
+            continue
+        for (cfi, call, cands) in sites:
+            sure = len(cands) == 1 or (fa.fi.cls is not None and A.norm(call.func).endswith("%s.%s" % (fa.fi.cls.name, fa.fi.name)))
+            v = A.kwarg(call, p)
+            if v is None and sure and p in positional and len(call.args) > positional.index(p) \
+                    and not any(isinstance(x, ast.Starred) for x in call.args[:positional.index(p) + 1]):
+                v = call.args[positional.index(p)]
+            if v is not None and not _immutable_constant(v):
+                out.append((p, "its parameter `%s`, which %s binds to `%s`" % (p, cfi.qual, A.short(v, 50))))
+                break
+    return out
+
+
 def _first_key(fa, k):
     """a sort key that selects the mapping key of an (key, value) item: absent, lambda t: t[0], itemgetter(0)"""
     if k is None:
@@ -953,6 +997,16 @@ def check(ck):
         oku = oku and utf8
     ck.ob(R2, ch.key(up, "input"), oku, "the digest input is utf-8(normalized_json(encode(effective kwargs)))" if oku else
           "the digest input is not the UTF-8 canonical JSON of the encoded effective kwargs", ch.where(up))
+    # the key is a function of the effective kwargs alone: nothing else (another argument, a table kept between calls)
+    # finds its way into the digest, the encoded form or the canonical text
+    for (f_, prm_, vals_, what_) in ((ch, CP, [(x_, ch.nodes(x_)[0]) for (_c, x_) in feeds if ch.nodes(x_)], "argument hash"),
+                                     (enc, EP, [(r_.value, enc.nodes(r_)[0]) for r_ in enc.returns() if r_.value is not None and enc.nodes(r_)], "encoded form"),
+                                     (nj, NP, [(r_.value, nj.nodes(r_)[0]) for r_ in nj.returns() if r_.value is not None and nj.nodes(r_)], "canonical text")):
+        extra = other_inputs(ck, f_, vals_, prm_)
+        ck.ob(R2, f_.key(None, "function-of-the-value-only"), not extra, "the %s is computed from `%s` and constants only" % (what_, prm_) if not extra else
+              "the %s is computed from `%s` and also from %s: the key is no longer the SHA-256 of the canonical JSON of the effective kwargs, so a call "
+              "whose bound values differ from what that other source holds gets the key (and the stored result) of another call"
+              % (what_, prm_, "; ".join(sorted({d_ for (_w, d_) in extra}))), f_.where())
     rets = [r for r in ch.returns() if ch.nodes(r)]
     okr = bool(rets)
     for r in rets:
